@@ -487,6 +487,87 @@ func checkC15(c *Ctx) {
 		}
 	}
 
+	// ---- C15.15 the decoder accepts the shortest thing the encoder produces: Obfuscate accepts the empty tag and emits
+	// representative (32) [+ GCM tag (16)] bytes for it, so TryReveal's minimum length is exactly 32 + 16 = 48 (GCM) and
+	// 32 (CTR) - by value, however the constants are spelt
+	r.Rule("C15.15", "TryReveal's minimum length is the length of the encoding of the empty tag (48 GCM, 32 CTR)", 2)
+	for typ, want := range map[string]string{"GCMObfuscator": "48", "CTRObfuscator": "32"} {
+		f := c.fn("C15.15", "pkg/transports", typ, "TryReveal")
+		if f == nil {
+			continue
+		}
+		found := ""
+		var pos token.Pos = f.Pos()
+		eachInstr(f, func(in ssa.Instruction) {
+			iff, ok := in.(*ssa.If)
+			if !ok {
+				return
+			}
+			bo, ok := iff.Cond.(*ssa.BinOp)
+			if !ok {
+				return
+			}
+			for _, pr := range [][2]ssa.Value{{bo.X, bo.Y}, {bo.Y, bo.X}} {
+				lc, isCall := pr[0].(*ssa.Call)
+				if !isCall {
+					continue
+				}
+				if bi, isB := lc.Call.Value.(*ssa.Builtin); !isB || bi.Name() != "len" || len(lc.Call.Args) != 1 {
+					continue
+				}
+				if prm, isP := lc.Call.Args[0].(*ssa.Parameter); !isP || prm != f.Params[len(f.Params)-2] {
+					continue
+				}
+				if cv, isC := constOf(pr[1]); isC && found == "" {
+					k, _ := constant.Int64Val(constant.ToInt(cv))
+					// len < K (reject) or K <= len forms: normalise to the smallest accepted length
+					switch {
+					case bo.Op == token.LSS && pr[0] == bo.X, bo.Op == token.GTR && pr[0] == bo.Y, bo.Op == token.GEQ && pr[0] == bo.X, bo.Op == token.LEQ && pr[0] == bo.Y:
+						found = fmt.Sprint(k)
+					case bo.Op == token.LEQ && pr[0] == bo.X, bo.Op == token.GEQ && pr[0] == bo.Y, bo.Op == token.GTR && pr[0] == bo.X, bo.Op == token.LSS && pr[0] == bo.Y:
+						found = fmt.Sprint(k + 1)
+					}
+					pos = iff.Pos()
+				}
+			}
+		})
+		if found == "" {
+			r.Unk("C15.15", typ+".TryReveal: minimum length test", f.Pos(), fnName(f), "no comparison of len(ciphertext) with a constant found")
+			continue
+		}
+		r.Check(found == want, "C15.15", typ+".TryReveal: shortest accepted encoding is "+want+" bytes", pos, fnName(f), "len(ciphertext) compared with "+found,
+			"TryReveal refuses encodings shorter than "+found+" bytes, but Obfuscate's encoding of the empty tag is "+want+" bytes: a value the encoder accepts is not decoded")
+	}
+
+	// ---- C15.16 the DNS decoder reports what is on the wire: the fields of a decoded question / record / message are
+	// filled from the stream only - no constant is written over a decoded field (a "normalisation" in the parser makes
+	// decode(encode(m)) differ from m without an error; such rules belong to the consumer of the message)
+	r.Rule("C15.16", "the DNS decoders store no constant into a decoded field", 3)
+	for _, nm := range []string{"readRR", "readQuestion", "readMessage"} {
+		f := c.fn("C15.16", "pkg/registrars/dns-registrar/dns", "", nm)
+		if f == nil {
+			continue
+		}
+		var bad []string
+		pos := f.Pos()
+		eachInstr(f, func(in ssa.Instruction) {
+			st, ok := in.(*ssa.Store)
+			if !ok {
+				return
+			}
+			o, fld, ok := fieldOwner(st.Addr)
+			if !ok || (o != "dns.RR" && o != "dns.Question" && o != "dns.Message") {
+				return
+			}
+			if cst, isC := stripConv(st.Val).(*ssa.Const); isC && cst.Value != nil {
+				bad = append(bad, o+"."+fld+" = "+cst.Value.ExactString())
+				pos = in.Pos()
+			}
+		})
+		r.Check(len(bad) == 0, "C15.16", nm+": decoded fields come from the stream", pos, fnName(f), "no constant is stored into a field of the decoded value",
+			"the decoder overwrites a decoded field with a constant ("+strings.Join(bad, ", ")+"): a message that carries another value there is encoded as given and decoded as something else, silently")
+	}
+
 	r.Rule("C15.11", "the encoder's compression-pointer chains stay within the decoder's pointer limit", 1)
 	if f := c.fn("C15.11", "pkg/registrars/dns-registrar/dns", "messageBuilder", "WriteName"); f != nil {
 		limit := constIntOf(c.P, repoMod+"/pkg/registrars/dns-registrar/dns", "compressionPointerLimit")
